@@ -74,9 +74,12 @@ def run_case(case) -> List[Tuple[str, str]]:
                                      "graphs_by_agent": {a: sorted(case["gsets"][i]) for i, a in enumerate(agents)}}
             ctx = E.mk_ctx(cfg, "driver", 7, now=None)
 
-            def double(self, c, st, text, _sizes=sizes):
+            computes: List[Tuple[str, bool, int]] = []      # (agent, dry-run?, commits seen so far) per compute call
+
+            def double(self, c, st, text, _sizes=sizes, _computes=computes, _store=store):
                 agent = str(c.agent_id)
                 turn = c.turn_id
+                _computes.append((agent, bool(getattr(c, "_dry_run_until_t4", False)), sum(_store.applied.values())))
                 for s in ("t1", "t2", "t4"):
                     append_jsonl(s + ".jsonl", _pad_payload(s, agent, turn, _sizes[s]))
                 deltas = [ProposedDelta("node", f"n:{agent}", "weight", 0.125, op_idx=None, idx=0)]
@@ -130,7 +133,7 @@ def run_case(case) -> List[Tuple[str, str]]:
                 for f in sorted(os.listdir(snapdir)):
                     with open(os.path.join(snapdir, f), "rb") as fh:
                         snaps[f] = fh.read()
-            outs[mode] = {"raised": raised, "results": [r.line for r in results], "files": files, "snaps": snaps,
+            outs[mode] = {"raised": raised, "results": [r.line for r in results], "files": files, "snaps": snaps, "computes": list(computes),
                           "applied": dict(store.applied), "weights": dict(store.weights), "version": state.get("version_etag")}
         b, l = outs["batch"], outs["loop"]
         where = f"gsets={case['gsets']} workers={case['workers']} limit={case['limit']} sizes={sizes}"
@@ -155,7 +158,23 @@ def run_case(case) -> List[Tuple[str, str]]:
             want = [r[0] for r in case["files"][s]]
             if got != want:
                 fails.append(("LogLinesEqualPerFile", f"{where}: {s}.jsonl agent order {got}, spec {want}"))
-        # overlap: agents computed in one batch = consecutive dry-run computes; checked through the model's batches
+        # overlap: agents computed against the same pre-commit state (dry-run computes that saw the same number of
+        # commits) form one real batch; no two of them may share a graph, and the first one is the model's first batch
+        groups: Dict[int, List[int]] = {}
+        for agent, dry, seen in b["computes"]:
+            if dry:
+                groups.setdefault(seen, []).append(int(agent[1:]))
+        for seen, members in sorted(groups.items()):
+            for x in range(len(members)):
+                for y in range(x + 1, len(members)):
+                    shared = set(case["gsets"][members[x] - 1]) & set(case["gsets"][members[y] - 1])
+                    if shared:
+                        fails.append(("OverlapNeverSameBatch", f"{where}: agents {members[x]} and {members[y]} share {sorted(shared)} "
+                                                               f"but were computed in the same batch {members}"))
+        if groups and case["workers"] > 1:
+            first = groups[min(groups)]
+            if first != list(case["batches"][0]):
+                fails.append(("OverlapNeverSameBatch", f"{where}: first batch computed {first}, spec {list(case['batches'][0])}"))
         # ---- equality with the sequential loop (premise: pairwise disjoint) ----
         if case["disjoint"]:
             if b["results"] != l["results"]:
@@ -232,9 +251,14 @@ def check(run) -> None:
             raise TLCError(f"AgentBatch control {flag} should violate ResultsEqual")
         run.ok(f"Model.control_{flag}_refuted")
     cases = []
-    for i, c in enumerate(all_cases):
-        if q and len(c["gsets"]) == 3 and i % 6:
-            continue
+    seen_in_group: Dict[str, int] = {}
+    for c in sorted(all_cases, key=lambda c: json.dumps(c, sort_keys=True)):
+        if q and len(c["gsets"]) == 3:
+            # every (graph sets, worker limit) selection case is kept; the staging-limit / record-size grid is thinned
+            g = json.dumps([c["gsets"], c["workers"]])
+            k = seen_in_group[g] = seen_in_group.get(g, -1) + 1
+            if k % 6:
+                continue
         cases.append(dict(c, workdir=run.workdir))
     run.extra["cases_in_model"] = len(all_cases)
     outs = pmap(run_case, cases, chunk=8)
